@@ -7,7 +7,7 @@ property (DESIGN 2.5 facets) and assembles the evidence.
 from . import core
 from . import modelreplay as mr
 
-LINK_ACTIONS = ("LinkAppend", "SetRole")
+LINK_ACTIONS = ("LinkAppend", "LinkExtend", "SetRole")
 UNLINK_ACTIONS = ("Delete", "LinkRemove", "ClearRole")
 CREATE_ACTIONS = ("Create", "CreateMTag", "CreateFeature", "CreateProperty")
 WRITE_ACTIONS = ("SetAttr", "WriteData")
@@ -93,7 +93,7 @@ def run_property(prop, verdict, runs, require_actions=(), tlc_props=(), rule="",
         models.append(run_.coverage())
         samples.extend(run_.samples[:2])
         cmds.append(tlc.cmd)
-    if total["replayed"] and total["truncated"] > 0.10 * total["replayed"]:
+    if total["replayed"] and total["truncated"] > 0.10 * total["replayed"] and not verdict.violations:
         # a replay is truncated when its history no longer reaches the recorded pre-state; on a healthy tree that is
         # rare - a high rate means the harness lost track of the specification and is verifying nothing
         raise core.MachineryError("vacuity: %d of %d replays truncated by an earlier divergence" % (total["truncated"], total["replayed"]))
